@@ -5,11 +5,11 @@ HERE="$(cd "$(dirname "$0")/.." && pwd)"
 WT=/tmp/verif-selftest-wt2
 git -C /repo worktree remove --force $WT 2>/dev/null
 git -C /repo worktree add -q --detach $WT HEAD || exit 2
-for d in "$HERE"/seeded/*/; do
+for d in "$HERE"/seeded/${1:-*}/; do
   id=$(basename "$d")
   git -C $WT checkout -q -- . && git -C $WT apply "$d/patch.diff" || { echo "$id: patch does not apply"; continue; }
   res=""
-  for pair in "translate_py.py ModGen.lean PyemvGen.ModRefines" "translate_cvn.py CvnGen.lean PyemvGen.CvnRefines"; do
+  for pair in "translate_py.py ModGen.lean PyemvGen.ModRefines" "translate_cvn.py CvnGen.lean PyemvGen.CvnRefines" "translate_tlv.py TlvGen.lean PyemvGen.TlvRefines"; do
     set -- $pair
     out=$(/venv/bin/python "$HERE/harness/$1" $WT "$HERE/lean/PyemvGen/$2" 2>&1)
     if [ $? -ne 0 ]; then res="$res $3:translator-refuses($(echo "$out" | tail -1 | cut -c1-70))"; continue; fi
@@ -20,4 +20,5 @@ done
 git -C /repo worktree remove --force $WT
 /venv/bin/python "$HERE/harness/translate_py.py" /repo "$HERE/lean/PyemvGen/ModGen.lean" >/dev/null
 /venv/bin/python "$HERE/harness/translate_cvn.py" /repo "$HERE/lean/PyemvGen/CvnGen.lean" >/dev/null
+/venv/bin/python "$HERE/harness/translate_tlv.py" /repo "$HERE/lean/PyemvGen/TlvGen.lean" >/dev/null
 (cd "$HERE/lean" && lake build PyemvGen >/dev/null 2>&1)
